@@ -290,4 +290,140 @@ package txmgr
 //@   ensures len(walletId) != 42 ==> err != nil
 //@   ensures err != nil ==> bsame(ns)
 //@   ensures err == nil ==> has(bmap(ns), walletId) && len(bmap(ns)[walletId]) == 8 && mathint(be64(bmap(ns)[walletId], 0)) == amt(amt)
-//@   ensures err == nil ==> forall s string :: s != walletId ==> has(bmap(ns), s) == old(has(bmap(ns), s)) && bmap(ns)[s] == old(bmap(ns)[s])
+//@   ensures err == nil ==> forall qs_ string :: qs_ != walletId ==> has(bmap(ns), qs_) == old(has(bmap(ns), qs_)) && bmap(ns)[qs_] == old(bmap(ns)[qs_])
+
+//@ func spendCredit
+//@   props C01 C09 C10 C18 C19
+//@   requires ns != nil && spender != nil && len(credKey) > 0
+//@   modifies bmap(ns)
+//@   ensures err != nil ==> bsame(ns)
+//@   ensures err == nil ==> old(bhas(ns, credKey)) && old(len(bval(ns, credKey))) == 45
+//@   ensures err == nil ==> amt(result0) == old(mathint(be64(bval(ns, credKey), 0)))
+//@   ensures err == nil ==> bhas(ns, credKey) && bsameExcept(ns, credKey) && len(bval(ns, credKey)) == 121
+//@   ensures err == nil ==> bytesEq(bval(ns, credKey), 0, old(bval(ns, credKey)), 0, 8) && bytesEq(bval(ns, credKey), 9, old(bval(ns, credKey)), 9, 36)
+//@   ensures err == nil ==> mathint(sbyteAt(bval(ns, credKey), 8)) % 2 == 1 && mathdiv(mathint(sbyteAt(bval(ns, credKey), 8)), 2) == mathdiv(old(mathint(sbyteAt(bval(ns, credKey), 8))), 2)
+//@   ensures err == nil ==> bytesEq(bval(ns, credKey), 45, spender.txHash, 0, 32) && mathint(be64(bval(ns, credKey), 77)) == mathint(spender.block.Height)
+//@   ensures err == nil ==> bytesEq(bval(ns, credKey), 85, spender.block.Hash, 0, 32) && mathint(be32(bval(ns, credKey), 117)) == mathint(spender.index)
+
+//@ func unspendRawCredit
+//@   props C01 C09 C10 C18 C19
+//@   requires ns != nil && len(credKey) > 0
+//@   modifies bmap(ns)
+//@   ensures err != nil ==> result0 == nil
+//@   ensures err == nil && result0 == nil ==> bsame(ns)
+//@   ensures result0 != nil ==> old(bhas(ns, credKey)) && bhas(ns, credKey) && bsameExcept(ns, credKey) && len(bval(ns, credKey)) == 45
+//@   ensures result0 != nil && old(len(bval(ns, credKey))) >= 45 ==> bytesEq(bval(ns, credKey), 0, old(bval(ns, credKey)), 0, 8) && bytesEq(bval(ns, credKey), 9, old(bval(ns, credKey)), 9, 36)
+//@   ensures result0 != nil && old(len(bval(ns, credKey))) >= 45 ==> mathint(sbyteAt(bval(ns, credKey), 8)) % 2 == 0 && mathdiv(mathint(sbyteAt(bval(ns, credKey), 8)), 2) == mathdiv(old(mathint(sbyteAt(bval(ns, credKey), 8))), 2)
+//@   ensures result0 != nil && old(len(bval(ns, credKey))) >= 45 ==> !result0.flags.Spent && amt(result0.amount) == old(mathint(be64(bval(ns, credKey), 0)))
+//@   ensures result0 != nil && old(len(bval(ns, credKey))) >= 45 ==> (result0.flags.Class == ClassStakingUtxo) == (mathdiv(old(mathint(sbyteAt(bval(ns, credKey), 8))), 4) % 4 == 1)
+//@   ensures result0 != nil && old(len(bval(ns, credKey))) >= 45 ==> (result0.flags.Class == ClassBindingUtxo) == (mathdiv(old(mathint(sbyteAt(bval(ns, credKey), 8))), 4) % 4 == 2)
+
+// ---------------------------------------------------------------------------------------------
+// Pending (unmined) transactions: C09.
+// Schema invariant of bucket "mi": every value is a concatenation of 32-byte spender hashes.
+//@ define miWFI(id) = (forall qs_ string :: has(bmapI(id), qs_) ==> len(bmapI(id)[qs_]) % 32 == 0)
+//@ define miWF(ns) = miWFI(bid(ns))
+//@ define B(tx, meta) = bucketOf(tx, meta)
+
+//@ func putRawUnminedInput
+//@   props C09 C18 C19
+//@   requires ns != nil && len(k) == 36 && len(v) == 32 && miWF(ns)
+//@   modifies bmap(ns)
+//@   ensures err != nil ==> bsame(ns)
+//@   ensures err == nil ==> bhas(ns, k) && bsameExcept(ns, k)
+//@   ensures err == nil ==> len(bval(ns, k)) == old(len(bval(ns, k))) + 32
+//@   ensures err == nil ==> bytesEq(bval(ns, k), old(len(bval(ns, k))), old(v), 0, 32)
+//@   ensures err == nil ==> bytesEq(bval(ns, k), 0, old(bval(ns, k)), 0, old(len(bval(ns, k))))
+//@   ensures miWF(ns)
+
+//@ func existsRawUnminedInput
+//@   props C09 C19
+//@   requires ns != nil
+//@   ensures v != nil ==> len(v) > 0 && bhas(ns, k) && strOf(v) == bval(ns, k)
+
+//@ func deleteRawUnminedInput
+//@   props C09 C18 C19
+//@   requires ns != nil
+//@   modifies bmap(ns)
+//@   ensures err == nil && len(k) > 0 ==> !bhas(ns, k) && bsameExcept(ns, k)
+//@   ensures err != nil || len(k) == 0 ==> bsame(ns)
+
+//@ func fetchUnminedInputSpendTxHashes
+//@   props C09 C19
+//@   requires ns != nil && miWF(ns)
+//@   ensures result != nil ==> len(k) > 0 && bhas(ns, k) && len(result) == len(bval(ns, k)) / 32
+//@   loop#1 invariant len(rawSpendTxHashes) % 32 == 0 && len(rawSpendTxHashes) >= 0
+//@   loop#1 invariant unchanged(k) && fresh(spendTxHashes)
+//@   loop#1 invariant rawSpendTxHashes != nil && len(k) > 0 && bhas(ns, k)
+//@   loop#1 invariant len(spendTxHashes) + len(rawSpendTxHashes) / 32 == len(bval(ns, k)) / 32
+//@   loop#1 decreases len(rawSpendTxHashes)
+
+//@ func existsRawUnmined
+//@   props C09 C19
+//@   requires ns != nil
+//@   ensures err != nil ==> result == nil
+//@   ensures err == nil && len(k) > 0 ==> (result != nil) == bhas(ns, k)
+//@   ensures result != nil ==> len(result) > 0 && strOf(result) == bval(ns, k)
+
+//@ func putRawUnmined
+//@   props C09 C18 C19
+//@   requires ns != nil
+//@   modifies bmap(ns)
+//@   ensures err == nil ==> len(k) > 0 && len(v) > 0 && bhas(ns, k) && bval(ns, k) == strOf(v) && bsameExcept(ns, k)
+//@   ensures err != nil ==> bsame(ns)
+
+//@ func deleteRawUnmined
+//@   props C09 C18 C19
+//@   requires ns != nil
+//@   modifies bmap(ns)
+//@   ensures err == nil && len(k) > 0 ==> !bhas(ns, k) && bsameExcept(ns, k)
+//@   ensures err != nil || len(k) == 0 ==> bsame(ns)
+
+//@ func existsRawUnminedCredit
+//@   props C09 C19
+//@   requires ns != nil
+//@   ensures len(k) < 36 ==> err != nil
+//@   ensures err != nil ==> result == nil
+//@   ensures err == nil ==> (result != nil) == bhas(ns, k)
+//@   ensures result != nil ==> len(result) > 0 && strOf(result) == bval(ns, k)
+
+//@ func deleteRawUnminedCredit
+//@   props C09 C18 C19
+//@   requires ns != nil
+//@   modifies bmap(ns)
+//@   ensures err == nil && len(k) > 0 ==> !bhas(ns, k) && bsameExcept(ns, k)
+//@   ensures err != nil || len(k) == 0 ==> bsame(ns)
+
+//@ func putRawUnminedCredit
+//@   props C09 C18 C19
+//@   requires ns != nil
+//@   modifies bmap(ns)
+//@   ensures err == nil ==> len(k) > 0 && len(v) > 0 && bhas(ns, k) && bval(ns, k) == strOf(v) && bsameExcept(ns, k)
+//@   ensures err != nil ==> bsame(ns)
+
+//@ func valueUnminedCredit
+//@   props C09 C10 C19
+//@   requires validAmt(amount) && ps != nil
+//@   ensures (err != nil) == (len(scriptHash) != 32)
+//@   ensures err == nil ==> len(result) == 45 && fresh(result) && mathint(be64(result, 0)) == amt(amount)
+//@   ensures err == nil ==> mathint(result[8]) == 2*b2i(change) + 4*b2i(ps.IsStaking()) + 8*b2i(ps.IsBinding())
+//@   ensures err == nil ==> be32(result, 9) == maturity && bytesEq(result, 13, scriptHash, 0, 32)
+
+// well-formedness of the relevance lists of a TxRecord (established by filterTx: indices come from range loops)
+//@ define relInOK(rec) = (forall j int :: 0 <= j && j < len(rec.RelevantTxIn) ==> rec.RelevantTxIn[j] != nil && 0 <= rec.RelevantTxIn[j].Index && rec.RelevantTxIn[j].Index < len(rec.MsgTx.TxIn) && rec.MsgTx.TxIn[rec.RelevantTxIn[j].Index] != nil)
+//@ define txInsOK(rec) = (forall j int :: 0 <= j && j < len(rec.MsgTx.TxIn) ==> rec.MsgTx.TxIn[j] != nil)
+//@ define relPrevKey(rec, j) = canonicalOutPoint(&rec.MsgTx.TxIn[rec.RelevantTxIn[j].Index].PreviousOutPoint.Hash, rec.MsgTx.TxIn[rec.RelevantTxIn[j].Index].PreviousOutPoint.Index)
+
+// P2 (C09): every relevant input of a pending transaction gets the transaction's hash appended to the
+// spender list of exactly the outpoint it spends; nothing else in that bucket changes in the step.
+//@ func (*UtxoStore).insertUnminedInputs
+//@   props C09 C18 C19
+//@   requires s != nil && s.bucketMeta != nil && tx != nil && rec != nil && relInOK(rec)
+//@   requires miWFI(B(tx, s.bucketMeta.nsUnminedInputs))
+//@   modifies bmapI(B(tx, s.bucketMeta.nsUnminedInputs))
+//@   loop#1 invariant miWFI(B(tx, s.bucketMeta.nsUnminedInputs))
+//@   loop#1 step bhasI(B(tx, s.bucketMeta.nsUnminedInputs), relPrevKey(rec, iter_))
+//@   loop#1 step bsameExceptI(B(tx, s.bucketMeta.nsUnminedInputs), relPrevKey(rec, iter_))
+//@   loop#1 step len(bvalI(B(tx, s.bucketMeta.nsUnminedInputs), relPrevKey(rec, iter_))) == old(len(bvalI(B(tx, s.bucketMeta.nsUnminedInputs), relPrevKey(rec, iter_)))) + 32
+//@   loop#1 step bytesEq(bvalI(B(tx, s.bucketMeta.nsUnminedInputs), relPrevKey(rec, iter_)), old(len(bvalI(B(tx, s.bucketMeta.nsUnminedInputs), relPrevKey(rec, iter_)))), rec.Hash, 0, 32)
+//@   ensures miWFI(B(tx, s.bucketMeta.nsUnminedInputs))
